@@ -190,11 +190,15 @@ pub struct Src {
     /// extra bytes the source holds beyond the announced size
     #[serde(default)]
     pub extra: usize,
+    /// generate the bytes on the fly instead of materialising the piece (C15: pieces of many MiB
+    /// must not sit on the harness' heap); content = PRNG stream for Rand, zeros for Zeros
+    #[serde(default)]
+    pub stream: bool,
 }
 
 impl Src {
     pub fn exact() -> Src {
-        Src { sched: Sched::Full, short_by: 0, extra: 0 }
+        Src { sched: Sched::Full, short_by: 0, extra: 0, stream: false }
     }
 }
 
@@ -378,7 +382,7 @@ pub fn gen_ops(rng: &mut Rng, c: &Consts, o: &GenOpts) -> Vec<WOp> {
     };
     let mk_src = |rng: &mut Rng| -> Src {
         if o.piece_scheds && rng.chance(1, 2) {
-            Src { sched: Sched::make(rng, false), short_by: 0, extra: if rng.chance(1, 6) { rng.range(1, 20) as usize } else { 0 } }
+            Src { sched: Sched::make(rng, false), short_by: 0, extra: if rng.chance(1, 6) { rng.range(1, 20) as usize } else { 0 }, stream: false }
         } else {
             Src::exact()
         }
